@@ -126,9 +126,6 @@ func (c *conn) Transport(ctx context.Context, request []byte) (response []byte, 
 
 func (c *conn) Exit(onExit func(), err error) {
 	onExit()
-	if e := recover(); e != nil {
-		err = core.NewPanicError(e)
-	}
 	if err != nil {
 		c.Close(err)
 	}
@@ -146,6 +143,10 @@ func (c *conn) send(request data) (err error) {
 func (c *conn) Send(ctx context.Context, onExit func()) {
 	var err error
 	defer func() {
+		// recover must be called by the deferred function itself
+		if e := recover(); e != nil {
+			err = core.NewPanicError(e)
+		}
 		c.Exit(onExit, err)
 	}()
 	for {
@@ -197,6 +198,10 @@ func (c *conn) receive() (err error) {
 func (c *conn) Receive(ctx context.Context, onExit func()) {
 	var err error
 	defer func() {
+		// recover must be called by the deferred function itself
+		if e := recover(); e != nil {
+			err = core.NewPanicError(e)
+		}
 		c.Exit(onExit, err)
 	}()
 	for {
